@@ -130,8 +130,18 @@ DumpOK(r) == /\ r[1] = 1
              /\ r[4] <= Len(logged)
              /\ r[4] >= Min(Len(logged), LowerK(r[3]))
 
+(* DumpAll: r = <<dump written and well-formed, word_size, <<priority, function, line, tags>> of this application's
+   records found in the dump, in ring order>> -- "a dump taken at any moment contains an unbroken run of the latest
+   log records ending with the very last one", whatever else the blackbox was told to take in between *)
+DumpAllOK(r) ==
+  /\ r[1] = 1 /\ r[2] * 4 >= size
+  /\ LET own == r[3]  k == Len(r[3])  n == Len(logged) IN
+     /\ k <= n /\ (n > 0 => k >= 1)
+     /\ \A i \in 1..k : own[i] = <<logged[n - k + i][1], logged[n - k + i][2], logged[n - k + i][3], logged[n - k + i][4]>>
+
 ResOK(op, r) ==
   CASE op[1] = "Init"  -> r = <<1>>
+    [] op[1] = "DumpAll" -> DumpAllOK(r)
     [] op[1] = "Log"   -> r = <<>>
     [] op[1] = "Dump"  -> DumpOK(r)
     [] op[1] = "Print" -> (nret >= 0 \/ op[2] = "junk") /\ PrintOK(<<op[2], op[6], op[7]>>, r)
@@ -145,6 +155,7 @@ DoPrint(c, r) == (nret >= 0 \/ c[1] = "junk") /\ last' = <<c, r>> /\ UNCHANGED <
 
 Do(op, r) ==
   CASE op[1] = "Init"  -> DoInit(op[2])
+    [] op[1] = "DumpAll" -> on /\ dumped' = logged /\ nret' = -1 /\ last' = <<>> /\ UNCHANGED <<on, size, logged>>
     [] op[1] = "Log"   -> DoLog(op[4])
     [] op[1] = "Dump"  -> DoDump(r[4])
     [] op[1] = "Print" -> DoPrint(<<op[2], op[6], op[7]>>, r)
